@@ -64,7 +64,14 @@ type Buffer struct {
 type Reader struct {
 	ref []byte
 	buf *bytes.Reader
+	// skipDepth is the current nesting depth of skipField (bounded by maxSkipDepth)
+	skipDepth int
 }
+
+// maxSkipDepth bounds the nesting of skipped struct/list/map fields: the nesting of the
+// input is chosen by the peer, and unbounded recursion overflows the goroutine stack,
+// which is fatal and cannot be recovered.
+const maxSkipDepth = 1024
 
 //go:nosplit
 func bWriteU8(w *bytes.Buffer, data uint8) error {
@@ -460,6 +467,11 @@ func (b *Reader) skipFieldSimpleList() error {
 }
 
 func (b *Reader) skipField(ty byte) error {
+	if b.skipDepth >= maxSkipDepth {
+		return fmt.Errorf("skip field: nesting deeper than %d", maxSkipDepth)
+	}
+	b.skipDepth++
+	defer func() { b.skipDepth-- }()
 	switch ty {
 	case BYTE:
 		b.Skip(1)
